@@ -3,6 +3,7 @@ package pgdump
 import (
 	"encoding/json"
 	"fmt"
+	"sort"
 	"strings"
 )
 
@@ -296,6 +297,8 @@ func (c *RemoteClient) Tables(dbOID uint32) []TableInfo {
 	for _, t := range c.cache.tables[dbOID] {
 		tables = append(tables, t)
 	}
+	// filenode order (the map's key): map iteration order is random, listings and dumps must not be
+	sort.Slice(tables, func(i, j int) bool { return tables[i].Filenode < tables[j].Filenode })
 	return tables
 }
 
